@@ -64,8 +64,11 @@ func NewBatchNode(opts ...any) *BatchNodeBuilder {
 
 	// Process options (similar to NewNode)
 	var baseOpts []NodeOption
+	var customOpts []CustomNodeOption
 	for _, opt := range opts {
 		switch o := opt.(type) {
+		case CustomNodeOption:
+			customOpts = append(customOpts, o)
 		case NodeOption:
 			baseOpts = append(baseOpts, o)
 		case func(*BaseNode):
@@ -75,6 +78,10 @@ func NewBatchNode(opts ...any) *BatchNodeBuilder {
 
 	for _, opt := range baseOpts {
 		opt(customNode.BaseNode)
+	}
+
+	for _, opt := range customOpts {
+		opt.apply(customNode)
 	}
 
 	return &BatchNodeBuilder{
